@@ -21,9 +21,11 @@ import xml.parsers.expat
 import pywbem
 from pywbem import _cim_xml as X
 
-DIMS = ("verb", "accept", "charset", "range", "ctype", "cenc", "clen", "body")
+DIMS = ("verb", "accept", "charset", "range", "ctype", "cenc", "clen", "body",
+        "lpos", "lex")
 VALID = dict(verb="POST", accept="ok", charset="ok", range="absent",
-             ctype="ok", cenc="ok", clen="ok", body="validExport")
+             ctype="ok", cenc="ok", clen="ok", body="validExport",
+             lpos="none", lex="none")
 
 KNOWN_VERBS = ["GET", "HEAD", "PUT", "DELETE", "OPTIONS", "TRACE", "CONNECT",
                "PATCH", "M_POST"]
@@ -94,7 +96,10 @@ def random_instance(rng, marker):
 
 
 def export_body(rng, marker, msgid, method="ExportIndication", params=None,
-                dtd=None, cim=None, proto=None, raw_params=None):
+                dtd=None, cim=None, proto=None, raw_params=None,
+                splice=None):
+    """`splice`: literal XML put in front of the other children of the
+    indication instance (a lexeme class at a converted position)"""
     inst = random_instance(rng, marker)
     if raw_params is None:
         if params is None:
@@ -115,9 +120,503 @@ def export_body(rng, marker, msgid, method="ExportIndication", params=None,
         assert a in s, s[:300]
         s = s.replace(a, '<EXPMETHODCALL NAME="%s">%s</EXPMETHODCALL>' %
                       (method, raw_params))
+    if splice is not None:
+        m = re.search(r'<INSTANCE CLASSNAME="[^"]*">', s)
+        assert m, s[:300]
+        s = s[:m.end()] + splice + s[m.end():]
     if rng.random() < 0.5:
         s = '<?xml version="1.0" encoding="utf-8" ?>\n' + s
     return s
+
+
+# ----------------------------------------------------------------------------
+# lexeme classes at the positions the CIM-XML reader converts
+# (spec/ListenerHttpReq.tla: LexAt; the classes come from TLC, this part only
+# writes down members of each class)
+# ----------------------------------------------------------------------------
+
+NUMT = ["uint8", "uint16", "uint32", "uint64", "sint8", "sint16", "sint32",
+        "sint64", "real32", "real64"]
+INTT = NUMT[:8]
+OTHERT = ["string", "boolean", "datetime", "char16"]
+INT_RANGE = {"uint8": (0, 2**8 - 1), "uint16": (0, 2**16 - 1),
+             "uint32": (0, 2**32 - 1), "uint64": (0, 2**64 - 1),
+             "sint8": (-2**7, 2**7 - 1), "sint16": (-2**15, 2**15 - 1),
+             "sint32": (-2**31, 2**31 - 1), "sint64": (-2**63, 2**63 - 1)}
+
+
+def xattr(v):
+    """attribute value, double-quoted; TAB/CR/LF as character references (a
+    literal one would be normalised to a blank)"""
+    out = []
+    for ch in v:
+        if ch == "&":
+            out.append("&amp;")
+        elif ch == "<":
+            out.append("&lt;")
+        elif ch == ">":
+            out.append("&gt;")
+        elif ch == '"':
+            out.append("&quot;")
+        elif ch in "\t\n\r":
+            out.append("&#%d;" % ord(ch))
+        else:
+            out.append(ch)
+    return '"%s"' % "".join(out)
+
+
+def xtext(v):
+    return v.replace("&", "&amp;").replace("<", "&lt;") \
+            .replace(">", "&gt;").replace("\r", "&#13;")
+
+
+def lex_typename(rng, lex, m):
+    num = rng.choice(NUMT)
+    if lex == "unknown":
+        return rng.choice(["foo", "x" + m, "integer", "float", "number",
+                           "object", "instance", "str", "int", "bit"])
+    if lex == "numSuffix":
+        return num + rng.choice(["x", "s", "0", "_t", m, "[]", ".0", "-",
+                                 "y" * 300, "é", "Ā"])
+    if lex == "numTrailSp":
+        return num + rng.choice([" ", "  ", "\t", "\r", " \t ", "\n ", "\n\n",
+                                 "\r\n ", "\n\r"])
+    if lex == "numTrailNl":
+        return num + "\n"
+    if lex == "numPrefix":
+        return rng.choice(["x", "u", "_", m, "0", "é"]) + num
+    if lex == "numLeadSp":
+        return rng.choice([" ", "\t", "\n", "\r\n", "  "]) + num
+    if lex == "otherSuffix":
+        return rng.choice(OTHERT) + rng.choice(["x", "s", " ", "\n", m, "16",
+                                                "[]"])
+    if lex == "badWidth":
+        return rng.choice(["uint", "sint", "real", "uint128", "sint24",
+                           "real16", "uint7", "uint1", "sint3", "real6",
+                           "uint08"])
+    if lex == "upper":
+        return rng.choice(["UINT8", "Uint8", "String", "BOOLEAN", "DateTime",
+                           "Real32", "sINT16", "CHAR16"])
+    if lex == "empty":
+        return ""
+    if lex == "reference":
+        return "reference"
+    if lex == "nonLatin":
+        return rng.choice(["Ā" + m, "üint8", "uint８", "strinġ", "€"])
+    raise ValueError("typename lexeme %r" % lex)
+
+
+def lex_number(rng, lex, m, typ):
+    """typ: integer type name | real32 | real64 | None (untyped key)"""
+    lo, hi = INT_RANGE.get(typ, (-2**31, 2**31 - 1))
+    small = rng.randint(0, min(hi, 127))
+    hexs = rng.choice(["0x%X", "0X%x", "0x%x", "0x0%X"]) % small
+    if lex == "hex":
+        return hexs
+    if lex == "hexPlus":
+        return "+" + hexs
+    if lex == "decPlus":
+        return "+%d" % small
+    if lex == "hexSuffix":
+        return hexs + rng.choice(["Z", "g", "h", "x", "L", "p3", ".5", m,
+                                  " x", "é"])
+    if lex == "hexPrefix":
+        return rng.choice(["Z", "x", "#", "$", "0", "=", m]) + hexs
+    if lex == "hexNoDigits":
+        return rng.choice(["0x", "0X", "+0x", "x1F", "0xg", "0x" + m])
+    if lex == "hexHuge":
+        return rng.choice(["", "+", "-"]) + "0x" + \
+            "F" * rng.choice([300, 400, 5000])
+    if lex == "decSuffix":
+        return "%d" % small + rng.choice(["abc", "x", "L", "u", "e", "f", "%",
+                                          m, "d", "j", "é"])
+    if lex == "decPrefix":
+        return rng.choice(["abc", "x", "#", "$", "=", "'", m]) + "%d" % small
+    if lex == "empty":
+        return rng.choice(["", "", " ", "\n"])
+    if lex == "innerSpace":
+        return rng.choice(["1 2", "1\t2", "0x 1F", "- 5", "+ 5", "1 000"])
+    if lex == "word":
+        return rng.choice(["abc", m, "one", "true", "null", "None", "zero"])
+    if lex == "doubleSign":
+        return rng.choice(["--5", "+-5", "++5", "-+0x1", "--0x1", "+-0"])
+    if lex == "outOfRange":
+        return str(rng.choice([hi + 1, lo - 1, hi + 1000, 2**64, -2**63 - 1,
+                               10**30]))
+    if lex == "hugeDec":
+        return rng.choice(["", "-", "+"]) + \
+            rng.choice("123456789") * rng.choice([310, 400, 4000])
+    if lex == "hugeDecX":
+        return rng.choice(["", "-"]) + "9" * rng.choice([4301, 5000, 20000])
+    if lex == "fraction":
+        return rng.choice(["1.5", "0.25", "3.0", "12.75", "+1.5"])
+    if lex == "bareDot":
+        return rng.choice(["1.", ".5", "7.", "+.5"])
+    if lex == "exponent":
+        return rng.choice(["1.5e1", "2.0E0", "1.0e+1", "1.25e2", "5.0e-1"])
+    if lex == "hugeExp":
+        return rng.choice(["1e400", "-1e999", "1.0e309", "1E5000"])
+    if lex == "nan":
+        return rng.choice(["NaN", "nan", "NAN"])
+    if lex == "inf":
+        return rng.choice(["Inf", "-Inf", "infinity", "INF", "+inf"])
+    if lex == "underscore":
+        return rng.choice(["1_0", "1_1", "0_7", "1_2_3"])
+    if lex == "uniDigits":
+        return rng.choice(["١٢", "１２", "٣", "७"])
+    if lex == "otherBase":
+        return rng.choice(["0b11", "0o7", "0B1", "0O17", "1e", "0b"])
+    if lex == "leadingZero":
+        return rng.choice(["010", "007", "00", "+01"])
+    if lex == "padded":
+        return rng.choice([" 12 ", "\n7\t", "  0x1F", "5 ", "\r\n3"])
+    if lex == "nlInside":
+        return rng.choice(["1\n2", "0x1\nF", "12\nX-Injected-%s: 1" % m,
+                           "1\r\n\r\n2"])
+    if lex == "nonLatin":
+        return rng.choice(["Ā", "1Ā", "€5", "Ā" + m])
+    raise ValueError("number lexeme %r" % lex)
+
+
+def lex_boolean(rng, lex, m):
+    if lex == "upper":
+        return rng.choice(["TRUE", "FALSE", "True", "fAlSe"])
+    if lex == "padded":
+        return rng.choice([" true ", "\nfalse\t", "true ", "  FALSE"])
+    if lex == "empty":
+        return rng.choice(["", "", " "])
+    if lex == "word":
+        return rng.choice(["yes", "no", "on", "off", m, "null"])
+    if lex == "digit":
+        return rng.choice(["1", "0"])
+    if lex == "suffix":
+        return rng.choice(["truex", "falsey", "true1", "true" + m, "false."])
+    if lex == "prefix":
+        return rng.choice(["xtrue", "untrue", "0false", m + "true", "!true"])
+    if lex == "abbrev":
+        return rng.choice(["t", "f", "tru", "fals", "T"])
+    if lex == "two":
+        return rng.choice(["true false", "true true", "true,false",
+                           "true\nfalse"])
+    if lex == "nonLatin":
+        return rng.choice(["trüe", "Ā", "falsĕ"])
+    raise ValueError("boolean lexeme %r" % lex)
+
+
+def lex_datetime(rng, lex, m):
+    ts = rng.choice(["20260925120000.000000+000", "19991231235959.999999-300",
+                     "20240229000000.123456+060"])
+    if lex == "interval":
+        return rng.choice(["00000001000000.000000:000",
+                           "12345678121212.123456:000",
+                           "00000000000000.000000:000"])
+    if lex == "short":
+        k = rng.randrange(len(ts))
+        return ts[:k] + ts[k + 1:]
+    if lex == "long":
+        k = rng.choice([0, 4, 14, 21, 25])
+        return ts[:k] + "0" + ts[k:]
+    if lex == "empty":
+        return ""
+    if lex == "suffix":
+        return ts + rng.choice(["x", "Z", "UTC", m])
+    if lex == "prefix":
+        return rng.choice(["x", "T", "D:", m]) + ts
+    if lex == "badMonth":
+        return rng.choice(["20261325120000.000000+000",
+                           "20260025120000.000000+000"])
+    if lex == "badDay":
+        return rng.choice(["20260230120000.000000+000",
+                           "20260932120000.000000+000",
+                           "20260900120000.000000+000"])
+    if lex == "badMinute":
+        return rng.choice(["20260925126000.000000+000",
+                           "20260925250000.000000+000",
+                           "20260925120061.000000+000"])
+    if lex == "badSep":
+        return rng.choice(["20260925120000,000000+000",
+                           "2026092512000.0000000+000",
+                           "20260925120000 000000+000"])
+    if lex == "noSign":
+        return rng.choice(["20260925120000.000000 000",
+                           "20260925120000.000000x000",
+                           "20260925120000.0000000000"])
+    if lex == "letters":
+        return rng.choice(["abcdefghijklmn.opqrst+uvw",
+                           "2026092512oooo.000000+000",
+                           "20260925120000.000000+utc"])
+    if lex == "uniDigits":
+        return rng.choice(["٢٠٢٦0925120000.000000+000",
+                           "２０２６0925120000.000000+000"])
+    if lex == "hugeOffset":
+        return rng.choice(["20260925120000.000000+999",
+                           "20260925120000.000000-999"])
+    if lex == "asterisks":
+        return rng.choice(["2026092512****.******+000",
+                           "20260925120000.******+000"])
+    if lex == "nonLatin":
+        return rng.choice(["2026092512000Ā.000000+000", "Ā", "€" + ts[1:]])
+    raise ValueError("datetime lexeme %r" % lex)
+
+
+def lex_arraysize(rng, lex, m):
+    if lex == "word":
+        return rng.choice(["x", m, "many", "two"])
+    if lex == "empty":
+        return ""
+    if lex == "negative":
+        return rng.choice(["-1", "-5", "-0"])
+    if lex == "hex":
+        return rng.choice(["0x10", "0X2", "+0x1"])
+    if lex == "fraction":
+        return rng.choice(["1.5", "2.0", "1e1", "2."])
+    if lex == "huge":
+        return "9" * rng.choice([20, 40, 400])
+    if lex == "hugeX":
+        return "9" * rng.choice([4301, 5000])
+    if lex == "suffix":
+        return rng.choice(["2x", "10 items", "3;", "2" + m])
+    if lex == "padded":
+        return rng.choice([" 2 ", "\n2", "2\t"])
+    if lex == "underscore":
+        return rng.choice(["1_0", "2_0"])
+    if lex == "uniDigits":
+        return rng.choice(["١", "２"])
+    if lex == "zero":
+        return rng.choice(["0", "00"])
+    raise ValueError("ARRAYSIZE lexeme %r" % lex)
+
+
+def lex_embattr(rng, lex, m):
+    if lex == "unknown":
+        return rng.choice(["foo", m, "class", "embedded", "yes"])
+    if lex == "upper":
+        return rng.choice(["INSTANCE", "Object", "OBJECT", "Instance"])
+    if lex == "suffix":
+        return rng.choice(["instancex", "objects", "instance" + m, "object1"])
+    if lex == "padded":
+        return rng.choice([" instance", "object ", "\ninstance"])
+    if lex == "empty":
+        return ""
+    if lex == "boolWord":
+        return rng.choice(["true", "false", "1", "TRUE"])
+    if lex == "nonLatin":
+        return rng.choice(["Ā", "instancé", "objeĉt"])
+    if lex == "validWord":
+        return rng.choice(["instance", "object"])
+    raise ValueError("EmbeddedObject lexeme %r" % lex)
+
+
+def lex_embxml(rng, lex, m):
+    if lex == "notXml":
+        return rng.choice(["x", m, "plain text", "INSTANCE"])
+    if lex == "illformed":
+        return rng.choice(["<a>", '<INSTANCE CLASSNAME="E">',
+                           "<INSTANCE CLASSNAME=E/>", "&", "<%s>" % m,
+                           '<INSTANCE CLASSNAME="E"/><'])
+    if lex == "empty":
+        return ""
+    if lex == "blank":
+        return rng.choice(["  ", "\n", " \t "])
+    if lex == "otherElement":
+        return rng.choice(["<FOO/>", "<VALUE>1</VALUE>",
+                           '<INSTANCENAME CLASSNAME="E"/>', "<%s/>" % m,
+                           '<PROPERTY NAME="P" TYPE="string"/>'])
+    if lex == "twoRoots":
+        return rng.choice(['<INSTANCE CLASSNAME="E"/><INSTANCE CLASSNAME="E"/>',
+                           '<CLASS NAME="E"/><CLASS NAME="F"/>'])
+    if lex == "missingAttr":
+        return rng.choice(["<INSTANCE/>", "<CLASS/>",
+                           '<INSTANCE NAME="E"/>'])
+    if lex == "badChild":
+        return rng.choice(['<INSTANCE CLASSNAME="E"><FOO/></INSTANCE>',
+                           '<INSTANCE CLASSNAME="E"><METHOD NAME="M" '
+                           'TYPE="uint8"/></INSTANCE>',
+                           '<INSTANCE CLASSNAME="E">text %s</INSTANCE>' % m,
+                           '<CLASS NAME="E"><VALUE>1</VALUE></CLASS>'])
+    raise ValueError("embedded object lexeme %r" % lex)
+
+
+def lex_valuetype(rng, lex, m):
+    if lex == "unknown":
+        return rng.choice(["foo", m, "integer", "real"])
+    if lex == "suffix":
+        return rng.choice(["numericx", "strings", "boolean ", "numeric" + m])
+    if lex == "upper":
+        return rng.choice(["Numeric", "STRING", "Boolean"])
+    if lex == "empty":
+        return ""
+    if lex == "nonLatin":
+        return rng.choice(["Ā", "numeriĉ"])
+    raise ValueError("VALUETYPE lexeme %r" % lex)
+
+
+def lex_char16(rng, lex, m):
+    return {"empty": "", "two": rng.choice(["ab", m, "a "]),
+            "astral": rng.choice(["\U0001F600", "\U00010000"]),
+            "blank": rng.choice([" ", "\t"])}[lex]
+
+
+def emb_attr_name(rng):
+    return rng.choice(["EmbeddedObject", "EMBEDDEDOBJECT"])
+
+
+def embedded(rng, inner, name, kind=None):
+    """string property whose value is the embedded object `inner`"""
+    kind = kind or rng.choice(["instance", "object"])
+    return '<PROPERTY NAME="%s" TYPE="string" %s="%s"><VALUE>%s</VALUE>' \
+        '</PROPERTY>' % (name, emb_attr_name(rng), kind, xtext(inner))
+
+
+def keyvalue_ref(rng, name, kv):
+    """reference property whose instance path has the KEYVALUE `kv`"""
+    if rng.random() < 0.25:
+        path = '<INSTANCENAME CLASSNAME="VTest_Ref">%s</INSTANCENAME>' % kv
+    else:
+        path = '<INSTANCENAME CLASSNAME="VTest_Ref"><KEYBINDING NAME="K">%s' \
+            '</KEYBINDING></INSTANCENAME>' % kv
+    if rng.random() < 0.3:
+        path = '<LOCALINSTANCEPATH><LOCALNAMESPACEPATH><NAMESPACE NAME="root"/>' \
+            '</LOCALNAMESPACEPATH>%s</LOCALINSTANCEPATH>' % path
+    return '<PROPERTY.REFERENCE NAME="%s"><VALUE.REFERENCE>%s</VALUE.REFERENCE>' \
+        '</PROPERTY.REFERENCE>' % (name, path)
+
+
+def make_lexeme(rng, lpos, lex, m):
+    """-> literal XML for the children of the indication instance: one
+    element in which position `lpos` carries a member of lexeme class `lex`"""
+    n = "Lx" + m
+    num_pos = {"intValue", "arrValue", "qualValue", "embPropValue",
+               "realValue", "keyNumValue"}
+    type_pos = {"propType", "arrType", "qualType", "keyType", "embPropType",
+                "clsPropType", "propTypeNull", "clsMethodType", "clsParamType"}
+    if lpos in type_pos:
+        t = xattr(lex_typename(rng, lex, m))
+        v = rng.choice(["1", "0", "7"])
+        if lpos == "propType":
+            return '<PROPERTY NAME="%s" TYPE=%s><VALUE>%s</VALUE></PROPERTY>' \
+                % (n, t, v)
+        if lpos == "arrType":
+            return '<PROPERTY.ARRAY NAME="%s" TYPE=%s><VALUE.ARRAY>' \
+                '<VALUE>%s</VALUE><VALUE>2</VALUE></VALUE.ARRAY>' \
+                '</PROPERTY.ARRAY>' % (n, t, v)
+        if lpos == "qualType":
+            q = '<QUALIFIER NAME="Lq%s" TYPE=%s><VALUE>%s</VALUE></QUALIFIER>' \
+                % (m, t, v)
+            if rng.random() < 0.5:
+                return q
+            return '<PROPERTY NAME="%s" TYPE="string">%s<VALUE>x</VALUE>' \
+                '</PROPERTY>' % (n, q)
+        if lpos == "keyType":
+            return keyvalue_ref(rng, n, '<KEYVALUE VALUETYPE="numeric" TYPE=%s>'
+                                '%s</KEYVALUE>' % (t, v))
+        if lpos == "embPropType":
+            return embedded(rng, '<INSTANCE CLASSNAME="VTest_E"><PROPERTY '
+                            'NAME="P" TYPE=%s><VALUE>%s</VALUE></PROPERTY>'
+                            '</INSTANCE>' % (t, v), n)
+        if lpos == "clsPropType":
+            return embedded(rng, '<CLASS NAME="VTest_E"><PROPERTY NAME="P" '
+                            'TYPE=%s><VALUE>%s</VALUE></PROPERTY></CLASS>'
+                            % (t, v), n, "object")
+        if lpos == "propTypeNull":
+            if rng.random() < 0.5:
+                return '<PROPERTY NAME="%s" TYPE=%s/>' % (n, t)
+            return '<PROPERTY.ARRAY NAME="%s" TYPE=%s></PROPERTY.ARRAY>' % (n, t)
+        if lpos == "clsMethodType":
+            return embedded(rng, '<CLASS NAME="VTest_E"><METHOD NAME="M" '
+                            'TYPE=%s/></CLASS>' % t, n, "object")
+        if lpos == "clsParamType":
+            el = rng.choice(["PARAMETER", "PARAMETER.ARRAY"])
+            return embedded(rng, '<CLASS NAME="VTest_E"><METHOD NAME="M" '
+                            'TYPE="uint8"><%s NAME="p" TYPE=%s/></METHOD>'
+                            '</CLASS>' % (el, t), n, "object")
+    if lpos == "keyValueType":
+        return keyvalue_ref(rng, n, '<KEYVALUE VALUETYPE=%s>1</KEYVALUE>'
+                            % xattr(lex_valuetype(rng, lex, m)))
+    if lpos in num_pos:
+        if lpos == "realValue":
+            typ = rng.choice(["real32", "real64"])
+        elif lpos == "keyNumValue":
+            typ = None
+        else:
+            typ = rng.choice(INTT)
+        x = xtext(lex_number(rng, lex, m, typ))
+        if lpos in ("intValue", "realValue"):
+            return '<PROPERTY NAME="%s" TYPE="%s"><VALUE>%s</VALUE>' \
+                '</PROPERTY>' % (n, typ, x)
+        if lpos == "arrValue":
+            vals = ["<VALUE>1</VALUE>"] * rng.randint(0, 2)
+            vals.insert(rng.randint(0, len(vals)), "<VALUE>%s</VALUE>" % x)
+            return '<PROPERTY.ARRAY NAME="%s" TYPE="%s"><VALUE.ARRAY>%s' \
+                '</VALUE.ARRAY></PROPERTY.ARRAY>' % (n, typ, "".join(vals))
+        if lpos == "qualValue":
+            if rng.random() < 0.5:
+                val = "<VALUE>%s</VALUE>" % x
+            else:
+                val = "<VALUE.ARRAY><VALUE>%s</VALUE></VALUE.ARRAY>" % x
+            return '<QUALIFIER NAME="Lq%s" TYPE="%s">%s</QUALIFIER>' \
+                % (m, typ, val)
+        if lpos == "embPropValue":
+            return embedded(rng, '<INSTANCE CLASSNAME="VTest_E"><PROPERTY '
+                            'NAME="P" TYPE="%s"><VALUE>%s</VALUE></PROPERTY>'
+                            '</INSTANCE>' % (typ, x), n)
+        if lpos == "keyNumValue":
+            return keyvalue_ref(rng, n, '<KEYVALUE VALUETYPE="numeric">%s'
+                                '</KEYVALUE>' % x)
+    if lpos == "boolValue":
+        x = xtext(lex_boolean(rng, lex, m))
+        if rng.random() < 0.7:
+            return '<PROPERTY NAME="%s" TYPE="boolean"><VALUE>%s</VALUE>' \
+                '</PROPERTY>' % (n, x)
+        return '<PROPERTY.ARRAY NAME="%s" TYPE="boolean"><VALUE.ARRAY><VALUE>' \
+            'true</VALUE><VALUE>%s</VALUE></VALUE.ARRAY></PROPERTY.ARRAY>' \
+            % (n, x)
+    if lpos == "boolAttr":
+        x = xattr(lex_boolean(rng, lex, m))
+        k = rng.randrange(4)
+        if k == 0:
+            return '<PROPERTY NAME="%s" TYPE="string" PROPAGATED=%s><VALUE>x' \
+                '</VALUE></PROPERTY>' % (n, x)
+        if k == 1:
+            return '<PROPERTY.ARRAY NAME="%s" TYPE="uint8" PROPAGATED=%s/>' \
+                % (n, x)
+        if k == 2:
+            return '<PROPERTY.REFERENCE NAME="%s" PROPAGATED=%s/>' % (n, x)
+        a = rng.choice(["PROPAGATED", "OVERRIDABLE", "TOSUBCLASS",
+                        "TOINSTANCE", "TRANSLATABLE"])
+        return '<QUALIFIER NAME="Lq%s" TYPE="string" %s=%s><VALUE>x</VALUE>' \
+            '</QUALIFIER>' % (m, a, x)
+    if lpos == "dtValue":
+        return '<PROPERTY NAME="%s" TYPE="datetime"><VALUE>%s</VALUE>' \
+            '</PROPERTY>' % (n, xtext(lex_datetime(rng, lex, m)))
+    if lpos == "char16Value":
+        return '<PROPERTY NAME="%s" TYPE="char16"><VALUE>%s</VALUE>' \
+            '</PROPERTY>' % (n, xtext(lex_char16(rng, lex, m)))
+    if lpos == "arraySize":
+        return '<PROPERTY.ARRAY NAME="%s" TYPE="uint8" ARRAYSIZE=%s>' \
+            '<VALUE.ARRAY><VALUE>1</VALUE></VALUE.ARRAY></PROPERTY.ARRAY>' \
+            % (n, xattr(lex_arraysize(rng, lex, m)))
+    if lpos == "embAttr":
+        return '<PROPERTY NAME="%s" TYPE="string" %s=%s><VALUE>%s</VALUE>' \
+            '</PROPERTY>' % (n, emb_attr_name(rng),
+                             xattr(lex_embattr(rng, lex, m)),
+                             xtext('<INSTANCE CLASSNAME="VTest_E"/>'))
+    if lpos == "embAttrNum":
+        return '<PROPERTY NAME="%s" TYPE="uint8" %s=%s><VALUE>1</VALUE>' \
+            '</PROPERTY>' % (n, emb_attr_name(rng),
+                             xattr(lex_embattr(rng, lex, m)))
+    if lpos == "embValue":
+        return embedded(rng, lex_embxml(rng, lex, m), n)
+    if lpos == "embArrValue":
+        vals = ['<VALUE>%s</VALUE>' % xtext('<INSTANCE CLASSNAME="VTest_E"/>')
+                ] * rng.randint(0, 2)
+        vals.insert(rng.randint(0, len(vals)),
+                    "<VALUE>%s</VALUE>" % xtext(lex_embxml(rng, lex, m)))
+        return '<PROPERTY.ARRAY NAME="%s" TYPE="string" %s="%s"><VALUE.ARRAY>' \
+            '%s</VALUE.ARRAY></PROPERTY.ARRAY>' % (
+                n, emb_attr_name(rng), rng.choice(["instance", "object"]),
+                "".join(vals))
+    raise ValueError("lexeme position %r" % lpos)
 
 
 def expat_rejects(data):
@@ -186,6 +685,15 @@ def make_body(rng, cls, marker, msgid):
     """-> (bytes, has_msgid)"""
     b = cls["body"]
     m = marker
+    if cls.get("lpos", "none") != "none":
+        # a lexeme class at a converted position; the body is well-formed
+        # (checked with expat: the class is about the lexeme, nothing else)
+        assert b in ("validExport", "lexeme"), cls
+        g = export_body(rng, m, msgid, splice=make_lexeme(
+            rng, cls["lpos"], cls["lex"], m)).encode("utf-8")
+        if expat_rejects(g):
+            raise ValueError("lexeme body is not well-formed: %r" % (cls,))
+        return g, True
     if b == "validExport":
         return export_body(rng, m, msgid).encode("utf-8"), True
     if b == "empty":
@@ -222,8 +730,21 @@ def make_body(rng, cls, marker, msgid):
         return export_body(rng, m, msgid, proto=v).encode("utf-8"), True
     if b == "wrongElement":
         g = export_body(rng, m, msgid)
-        v = rng.randrange(7)
-        if v == 0:
+        v = rng.randrange(9)
+        if v == 7:
+            # attributes the DTD does not give EXPPARAMVALUE (they belong to
+            # PARAMVALUE / PROPERTY), with lexemes of their own
+            a = rng.choice(["PARAMTYPE", "TYPE", "EmbeddedObject",
+                            "EMBEDDEDOBJECT", "ARRAYSIZE", "PROPAGATED"])
+            x = rng.choice(["instance", "uint8", "uint8x", "uint8\n", m, "",
+                            "0x1FZ", "truex", "object "])
+            g = g.replace("<EXPPARAMVALUE ", "<EXPPARAMVALUE %s=%s " %
+                          (a, xattr(x)), 1)
+        elif v == 8:
+            x = rng.choice(["instance", "uint8x", "real32s", "uint8\n", m, ""])
+            g = g.replace("<EXPPARAMVALUE ", "<PARAMVALUE PARAMTYPE=%s " %
+                          xattr(x)).replace("</EXPPARAMVALUE>", "</PARAMVALUE>")
+        elif v == 0:
             g = g.replace("SIMPLEEXPREQ", "SIMPLEREQ")
         elif v == 1:
             g = g.replace("EXPMETHODCALL", "METHODCALL")
